@@ -12,7 +12,7 @@
 //   thr   per whole w: for each predicate the least part in [0,w] for which it holds (w+1 if none)
 //         and the number of parts in [0,w] for which it holds (pure counting, all 2^31 pairs evaluated)
 //   cr    one CouldReachStrongQuorumFor evaluation (support, senders, whole) -> (without, with adversary)
-//   big   IsStrongQuorum / hasWeakQuorum on large int64 values (limbs base 2^14, little endian)
+//   big   IsStrongQuorum / hasWeakQuorum on large int64 values (limbs base 2^12, little endian)
 //   scale PowerEntries.Scaled() / PowerTable.Add on big-integer tables (powers as limbs)
 //   use   a component's accept/reject of a signer set of known scaled weight (certs / validator)
 //   tally the real quorumState after feeding it votes of known weight
@@ -65,18 +65,18 @@ func (o *out) emit(r row) {
 	o.n++
 }
 
-// limbs: little-endian base 2^14 digits of a non-negative big integer (TLC integers are 32 bit).
+// limbs: little-endian base 2^12 digits of a non-negative big integer (TLC integers are 32 bit).
 func limbs(x *big.Int) []int64 {
 	if x.Sign() < 0 {
 		panic("negative")
 	}
 	v := new(big.Int).Set(x)
-	mask := big.NewInt(16383)
+	mask := big.NewInt(4095)
 	res := []int64{}
 	for v.Sign() > 0 {
 		d := new(big.Int).And(v, mask)
 		res = append(res, d.Int64())
-		v.Rsh(v, 14)
+		v.Rsh(v, 12)
 	}
 	return res
 }
@@ -145,9 +145,9 @@ func TestQuorumRows(t *testing.T) {
 	crStride := int64(envInt("VERIF_CRSTRIDE", 1))
 	w3 := int64(envInt("VERIF_W3", 36))
 	nCR := envInt("VERIF_NCR", 4000)
-	nBig := envInt("VERIF_NBIG", 3000)
-	nScale := envInt("VERIF_NSCALE", 2500)
-	nUse := envInt("VERIF_NUSE", 250)
+	nBig := envInt("VERIF_NBIG", 2000)
+	nScale := envInt("VERIF_NSCALE", 600)
+	nUse := envInt("VERIF_NUSE", 120)
 	rng := rand.New(rand.NewSource(seed))
 
 	f, err := os.Create(path)
@@ -249,7 +249,7 @@ func TestQuorumRows(t *testing.T) {
 		if part.Cmp(whole) > 0 {
 			part = new(big.Int).Set(whole)
 		}
-		o.emit(row{"k": "big", "part": limbs(part), "whole": limbs(whole),
+		o.emit(row{"k": "big", "part": limbs(part), "whole": limbs(whole), "whole2": limbs(new(big.Int).Add(whole, big.NewInt(2))),
 			"strong": gpbft.IsStrongQuorum(part.Int64(), whole.Int64()),
 			"weak":   gpbft.VerifQHasWeakQuorum(part.Int64(), whole.Int64())})
 		evals += 2
@@ -346,6 +346,22 @@ func powLimbs(es gpbft.PowerEntries) [][]int64 {
 	}
 	return r
 }
+func totalLimbs(es gpbft.PowerEntries) []int64 {
+	t := new(big.Int)
+	for i := range es {
+		t.Add(t, es[i].Power.Int)
+	}
+	return limbs(t)
+}
+// ordOf: 1-based member indices sorted by ascending power (describes the input; the spec re-checks it)
+func ordOf(es gpbft.PowerEntries) []int {
+	o := make([]int, len(es))
+	for i := range o {
+		o[i] = i + 1
+	}
+	sort.SliceStable(o, func(a, b int) bool { return es[o[a]-1].Power.Int.Cmp(es[o[b]-1].Power.Int) < 0 })
+	return o
+}
 func idsOf(es gpbft.PowerEntries) []int64 {
 	r := make([]int64, len(es))
 	for i := range es {
@@ -363,15 +379,15 @@ func nz(a []int64) []int64 {
 func scaleRows(o *out, rng *rand.Rand, entries gpbft.PowerEntries) {
 	// PowerEntries.Scaled()
 	scaled, total, err := entries.Scaled()
-	o.emit(row{"k": "scale", "api": "entries", "ok": err == nil, "ids": idsOf(entries), "p": powLimbs(entries), "scaled": nz(scaled), "total": total, "valid": true})
+	o.emit(row{"k": "scale", "api": "entries", "ok": err == nil, "ids": idsOf(entries), "p": powLimbs(entries), "t": totalLimbs(entries), "ord": ordOf(entries), "scaled": nz(scaled), "total": total, "valid": true})
 	// PowerTable.Add (all at once)
 	pt := gpbft.NewPowerTable()
 	err = pt.Add(entries...)
 	if err != nil {
-		o.emit(row{"k": "scale", "api": "table", "ok": false, "ids": idsOf(entries), "p": powLimbs(entries), "scaled": []int64{}, "total": 0, "valid": true})
+		o.emit(row{"k": "scale", "api": "table", "ok": false, "ids": idsOf(entries), "p": powLimbs(entries), "t": totalLimbs(entries), "ord": ordOf(entries), "scaled": []int64{}, "total": 0, "valid": true})
 		return
 	}
-	o.emit(row{"k": "scale", "api": "table", "ok": true, "ids": idsOf(pt.Entries), "p": powLimbs(pt.Entries), "scaled": nz(pt.ScaledPower), "total": pt.ScaledTotal, "valid": pt.Validate() == nil})
+	o.emit(row{"k": "scale", "api": "table", "ok": true, "ids": idsOf(pt.Entries), "p": powLimbs(pt.Entries), "t": totalLimbs(pt.Entries), "ord": ordOf(pt.Entries), "scaled": nz(pt.ScaledPower), "total": pt.ScaledTotal, "valid": pt.Validate() == nil})
 	// PowerTable.Add in two steps (everything is rescaled against the new total)
 	if len(entries) >= 2 {
 		cut := 1 + rng.Intn(len(entries)-1)
@@ -381,7 +397,7 @@ func scaleRows(o *out, rng *rand.Rand, entries gpbft.PowerEntries) {
 			e2 = pt2.Add(entries[cut:]...)
 		}
 		if e1 == nil && e2 == nil {
-			o.emit(row{"k": "scale", "api": "table2", "ok": true, "ids": idsOf(pt2.Entries), "p": powLimbs(pt2.Entries), "scaled": nz(pt2.ScaledPower), "total": pt2.ScaledTotal, "valid": pt2.Validate() == nil})
+			o.emit(row{"k": "scale", "api": "table2", "ok": true, "ids": idsOf(pt2.Entries), "p": powLimbs(pt2.Entries), "t": totalLimbs(pt2.Entries), "ord": ordOf(pt2.Entries), "scaled": nz(pt2.ScaledPower), "total": pt2.ScaledTotal, "valid": pt2.Validate() == nil})
 		}
 	}
 }
